@@ -1,6 +1,6 @@
 """C12 part A: solver obligations on the x86-64 JIT's per-instruction loop body (MIR of JitCompiler::jit_compile)."""
-import traceback
-from z3 import (BitVec, BitVecVal, Bool, BoolVal, Array, BitVecSort, Select, And, Or, Not, If, ULT, ULE, UGE, Extract, ZeroExt, simplify, is_true, is_false, is_bv_value)
+import traceback, re
+from z3 import (BitVec, BitVecVal, Bool, BoolVal, Array, BitVecSort, Select, And, Or, Not, If, ULT, ULE, UGE, Extract, ZeroExt, simplify, is_true, is_false, is_bv_value, URem)
 import common, mirsym, spec, obl, verif
 from mirsym import V, Agg, Enum, Slice, Opaque, Ptr, Ref, LazyObj, Unsupported
 
@@ -19,6 +19,11 @@ class JitLoop:
         heads = self.f.loop_heads()
         if len(heads) != 1: raise Unsupported(f'jit_compile: loops {heads}')
         self.head = heads[0]; self.ip = self.f.local_of('insn_ptr')
+        # JitMemory's field numbering depends on the feature set (`layout` exists only with std): read the index of `offset` (the only usize field) from emit1's MIR
+        e1 = [mir.funcs[n] for n in mir.funcs if n.endswith('::emit1') and 'jit.rs' in n]
+        ks = set(re.findall(r'\(\(\*_2\)\.(\d+): usize\)', e1[0].text)) if e1 else set()
+        if len(ks) != 1: raise Unsupported(f'JitMemory offset field: {ks}')
+        self.off_field = int(ks.pop())
         self.prog_base, self.prog_len = BitVec('prog_base', 64), BitVec('prog_len', 64); self.M0 = Array('M0', BitVecSort(64), BitVecSort(8))
         self._head = None
     def head_state(self):
@@ -27,7 +32,7 @@ class JitLoop:
             st = mirsym.State(); st.mem = self.M0
             fr = mirsym.Frame(f); fr.tag = 'top'; st.frames.append(fr)
             p = [x[0] for x in f.params]
-            fr.locals['$jc'] = eng.fresh_lazy('&mut JitCompiler', 'jc'); fr.locals['$jm'] = eng.fresh_lazy('&mut JitMemory', 'jm'); fr.locals[p[0]] = Ref(fr, '$jc', []); fr.locals[p[1]] = Ref(fr, '$jm', [])
+            fr.locals['$jc'], fr.locals['$jm'] = self.objs(); fr.locals[p[0]] = Ref(fr, '$jc', []); fr.locals[p[1]] = Ref(fr, '$jm', [])
             fr.locals[p[2]] = Slice(self.prog_base, self.prog_len); fr.locals[p[3]] = V(Bool('use_mbuff'), 'bool'); fr.locals[p[4]] = V(Bool('update_data_ptr'), 'bool'); fr.locals[p[5]] = Opaque('helpers')
             st.pc = [self.jm_offset() == 0, UGE(self.jm_len(), 4096)]
             k = (f.name, self.head); st.visits[k] = 1
@@ -37,19 +42,21 @@ class JitLoop:
             if not cuts: raise Unsupported('jit_compile: loop head not reached')
             self._head = cuts[0].st
         return self._head
-    # symbolic names libsym-style: jm = JitMemory { contents: &mut [u8] (0), write_enabled (1), layout (2), offset (3) }
-    def jm_offset(self): return BitVec('jm.3', 64)
-    def jm_len(self): return BitVec('jm.0.len', 64)
-    def jm_we(self): return Bool('jm.1')
+    def jm_offset(self): return BitVec('jm.offset', 64)
+    def jm_len(self): return BitVec('jm.contents.len', 64)
+    def jm_we(self): return Bool('jm.write_enabled')
+    def objs(self):
+        """the compiler objects with build-independent symbol names: JitMemory { contents (0), write_enabled (1), [layout,] offset }, JitCompiler { pc_locs (0), .. }"""
+        jm = LazyObj('jm', 'JitMemory', {0: Slice(BitVec('jm.contents.ptr', 64), self.jm_len(), 'u8'), 1: V(self.jm_we(), 'bool'), self.off_field: V(self.jm_offset(), 'usize')})
+        jc = LazyObj('jc', 'JitCompiler', {0: Slice(BitVec('pc_locs.ptr', 64), self.nslots, 'usize')})
+        return jc, jm
     def step(self, opc):
         st = self.head_state().fork(); fr = st.frames[0]; self.eng.memo.clear()
         st.pc = []; st.log = []; st.events = []; st.visits = {}; st.aux.pop('writes', None)
         P = type('P', (), {})(); P.pc = BitVec('pc', 64)
         for l in self.f.assigned_in(self.f.loop_body(self.head)): fr.locals.pop(l, None)
         fr.locals[self.ip] = V(P.pc, 'usize')
-        # the compiler objects at the loop head: arbitrary offset, write flag, pc_locs of n+1 entries
-        jm = LazyObj('jm', 'JitMemory', {0: Slice(BitVec('jm.0.ptr', 64), self.jm_len(), 'u8'), 1: V(self.jm_we(), 'bool'), 3: V(self.jm_offset(), 'usize')})
-        jc = LazyObj('jc', 'JitCompiler', {0: Slice(BitVec('pc_locs.ptr', 64), self.nslots, 'usize')})
+        jc, jm = self.objs()      # the compiler objects at the loop head: arbitrary offset, write flag, pc_locs of n+1 entries
         p = [x[0] for x in self.f.params]; fr.locals['$jc'] = jc; fr.locals['$jm'] = jm; fr.locals[p[0]] = Ref(fr, '$jc', []); fr.locals[p[1]] = Ref(fr, '$jm', [])
         P.opc = BitVecVal(opc, 8); P.regbyte = BitVec('regbyte', 8); P.off = BitVec('off', 16); P.imm = BitVec('imm', 32)
         P.nopc = BitVec('nopc', 8); P.nregbyte = BitVec('nregbyte', 8); P.noff = BitVec('noff', 16); P.next_imm = BitVec('next_imm', 32)
@@ -76,7 +83,7 @@ def mentions(c, name, _memo={}):
 
 def buffer_obligation(pr, J, name, pc_, off0, d, cands, assumed=()):
     """an emitting path explored under `64 bytes left` takes the same branches whenever the buffer has room for just the bytes it emits"""
-    L = [c for c in pc_ if mentions(c, 'jm.0.len') and not any(c.eq(x) for x in assumed)]; A = [c for c in pc_ if not mentions(c, 'jm.0.len')]
+    L = [c for c in pc_ if mentions(c, 'jm.contents.len') and not any(c.eq(x) for x in assumed)]; A = [c for c in pc_ if not mentions(c, 'jm.contents.len')]
     if not L: return
     r, m = pr.prove(f'{name}:buffer-checks-implied-by-room-for-emitted-bytes', A + [UGE(J.jm_len(), off0 + d), ULE(J.jm_len(), 1 << 40), ULE(off0, 1 << 32)], And(*L),
                     sample=f'{name}: every buffer-capacity condition on an emitting path follows from len >= offset + bytes emitted by this step')
@@ -99,7 +106,7 @@ def frame_worker(timeout):
             pr.out['witnesses'] += 1
             for pt, dt in T:
                 for pf, df in F:
-                    both = [c for c in list(pt.st.pc) + list(pf.st.pc) if not mentions(c, 'jm.1') and not mentions(c, 'jm.0.len')]
+                    both = [c for c in list(pt.st.pc) + list(pf.st.pc) if not mentions(c, 'jm.write_enabled') and not mentions(c, 'jm.contents.len')]
                     r0, _ = pr.check(both, [])
                     if r0 == 'unsat': continue
                     r, m = pr.prove(f'{tag}:two-pass-agreement', both, dt == df, sample=f'{tag}: sizing and emitting pass emit the same number of bytes for the same VM kind flags')
@@ -111,7 +118,7 @@ def frame_worker(timeout):
             if p.kind not in ('cut',):
                 r, m = pr.prove('prologue:no-panic', list(p.st.pc), BoolVal(False), sample='prologue: no panic path')
                 if r == 'sat': cands.append(dict(role=f'jit-compile/prologue/panic', detail=f'{p.kind} {p.payload}', model=None, friendly=True))
-        agree('prologue', cuts, BitVecVal(0, 64), [simplify(p.st.frames[0].locals['$jm'].fields[3].t - J.jm_offset()) for p in cuts], [J.jm_offset() == 0, UGE(J.jm_len(), 4096)])
+        agree('prologue', cuts, BitVecVal(0, 64), [simplify(p.st.frames[0].locals['$jm'].fields[J.off_field].t - J.jm_offset()) for p in cuts], [J.jm_offset() == 0, UGE(J.jm_len(), 4096)])
         # epilogue: loop exit (insn_ptr == n)
         st, P = J.step(0x95); n = J.prog_len / 8; off0 = J.jm_offset()
         st.pc = epi = [P.pc == n, ULE(J.prog_len, 8000000), J.prog_len % 8 == 0, J.nslots == n + 1, ULE(off0, 1 << 32), Or(Not(J.jm_we()), UGE(J.jm_len(), off0 + 64)), ULE(J.jm_len(), 1 << 40)]
@@ -123,7 +130,7 @@ def frame_worker(timeout):
             else:
                 r, m = pr.prove('epilogue:no-panic', list(p.st.pc), BoolVal(False), sample='epilogue: no panic path')
                 if r == 'sat': cands.append(dict(role=f'jit-compile/epilogue/{p.kind}', detail=f'{p.kind} {p.payload}', model=None, friendly=True))
-        agree('epilogue', rets, off0, [simplify(p.st.aux['final_locals']['$jm'].fields[3].t - off0) for p in rets], epi)
+        agree('epilogue', rets, off0, [simplify(p.st.aux['final_locals']['$jm'].fields[J.off_field].t - off0) for p in rets], epi)
         new_args(mir, tt, timeout, pr, cands)
         for fn in J.eng.used_funcs:
             if fn in mir.funcs: pr.out['functions'][fn] = mir.fn_hash(fn)
@@ -137,12 +144,13 @@ def new_args(mir, tt, timeout, pr, cands):
     f = [mir.funcs[n] for n in mir.funcs if n.endswith('::new') and 'jit.rs' in n and 'JitMemory' in mir.funcs[n].ret]
     if len(f) != 1: raise Unsupported(f'JitMemory::new: {len(f)} candidates')
     f = f[0]; eng = mirsym.Engine(mir, tt, timeout); k = [0]
+    nfields = 4 if re.search(r'JitMemory::<[^>]*> \{[^}]*layout:', f.text) else 3
     def D(name):
         d = BitVec(name, 64); eng.ctx.setdefault('lazy_ranges', []).append(ULT(d, 2)); return d
     def jc(en, st, fr, callee, args, R):
         k[0] += 1; r = args[1]; memv = en.get(st, r.frame, r.local, r.proj)
         st.events.append(('pass', dict(mem=memv, prog=args[2], use_mbuff=args[3], update=args[4], helpers=args[5])))
-        f_ = list(memv.f); cnt = BitVec(f'emitted!{k[0]}', 64); f_[3] = V(cnt, 'usize'); en.put(st, r.frame, r.local, r.proj, Agg(f_, memv.ty, memv.kind))
+        f_ = list(memv.f); cnt = BitVec(f'emitted!{k[0]}', 64); f_[-1] = V(cnt, 'usize'); en.put(st, r.frame, r.local, r.proj, Agg(f_, memv.ty, memv.kind))
         return R(Enum(D(f'pass_res!{k[0]}'), {0: [Agg([], '()')], 1: [Opaque('err', ('jit',))]}, 'Result'))
     eng.add_stub(r'JitCompiler::jit_compile$', jc)
     eng.add_stub(r'JitCompiler::new$', lambda en, st, fr, callee, args, R: R(LazyObj('jitc', 'JitCompiler')))
@@ -154,11 +162,16 @@ def new_args(mir, tt, timeout, pr, cands):
     eng.add_stub(r'slice::from_raw_parts_mut', lambda en, st, fr, callee, args, R: R(Slice(args[0].addr, args[1].t, 'u8')))
     eng.add_stub(r'as From<ErrorKind>>::from$', lambda en, st, fr, callee, args, R: R(Opaque('err', ('oom',))))
     eng.add_stub(r'Ord>::max$', lambda en, st, fr, callee, args, R: R(V(If(UGE(args[0].t, args[1].t), args[0].t, args[1].t), args[0].ty)))
-    eng.add_stub(r'JitMemory::<.*>::counter$|JitMemory::counter$', lambda en, st, fr, callee, args, R: R(Agg([Slice(BitVec('empty.ptr', 64), BitVecVal(0, 64), 'u8'), V(BoolVal(False), 'bool'), Opaque('layout0'), V(BitVecVal(0, 64), 'usize')], 'JitMemory', 'struct')))
+    eng.add_stub(r'JitMemory::<.*>::counter$|JitMemory::counter$', lambda en, st, fr, callee, args, R: R(Agg([Slice(BitVec('empty.ptr', 64), BitVecVal(0, 64), 'u8'), V(BoolVal(False), 'bool')] + ([Opaque('layout0')] if nfields == 4 else []) + [V(BitVecVal(0, 64), 'usize')], 'JitMemory', 'struct')))
     st = mirsym.State(); st.mem = Array('M0', BitVecSort(64), BitVecSort(8))
     fr = mirsym.Frame(f); fr.tag = 'top'; st.frames.append(fr)
-    p = [x[0] for x in f.params]
-    fr.locals[p[0]] = Slice(BitVec('prog_base', 64), BitVec('prog_len', 64)); fr.locals[p[1]] = Opaque('helpers'); fr.locals[p[2]] = V(Bool('use_mbuff'), 'bool'); fr.locals[p[3]] = V(Bool('update_data_ptr'), 'bool')
+    bools = ['use_mbuff', 'update_data_ptr']; caller_mem = None
+    for (p_, t_) in f.params:          # by type: the no_std variant has one more parameter (caller-supplied executable memory)
+        if t_ == 'bool': fr.locals[p_] = V(Bool(bools.pop(0)), 'bool')
+        elif 'HashMap' in t_: fr.locals[p_] = Opaque('helpers')
+        elif 'mut [u8]' in t_: caller_mem = Slice(BitVec('exec.ptr', 64), BitVec('exec.len', 64), 'u8'); fr.locals[p_] = caller_mem
+        elif '[u8]' in t_: fr.locals[p_] = Slice(BitVec('prog_base', 64), BitVec('prog_len', 64))
+        else: raise Unsupported(f'JitMemory::new parameter {p_}: {t_}')
     paths = eng.explore(st); two = 0
     for q in paths:
         if q.kind != 'return':
@@ -177,7 +190,9 @@ def new_args(mir, tt, timeout, pr, cands):
         pr.out['syntactic'] = pr.out.get('syntactic', 0) + 4
         if bad: cands.append(dict(role='jit-new/passes-get-different-arguments:' + ','.join(bad), detail=f'JitMemory::new passes different {bad} to the sizing and the emitting pass: {[(str(a[x]), str(b[x])) for x in bad]}', model=None, friendly=True))
         m1, m2 = a['mem'], b['mem']
-        goal = And(Not(m1.f[1].t) if not isinstance(m1.f[1].t, bool) else BoolVal(not m1.f[1].t), m1.f[3].t == 0, m2.f[1].t, m2.f[3].t == 0, UGE(m2.f[0].len, BitVec('emitted!1', 64)), UGE(m2.f[0].len, 4096))
+        goal = And(Not(m1.f[1].t) if not isinstance(m1.f[1].t, bool) else BoolVal(not m1.f[1].t), m1.f[-1].t == 0, m2.f[1].t, m2.f[-1].t == 0, UGE(m2.f[0].len, BitVec('emitted!1', 64)), UGE(m2.f[0].len, 4096))
+        if caller_mem is not None:       # no_std: pass 2 writes into the caller's memory, which is page aligned
+            goal = And(goal, m2.f[0].base == caller_mem.base, m2.f[0].len == caller_mem.len, URem(caller_mem.base, 4096) == 0)
         r, m = pr.prove('JitMemory::new:buffer-holds-counted-size', list(q.st.pc) + [ULE(BitVec('emitted!1', 64), 1 << 40)], goal, sample='JitMemory::new: pass 1 counts from 0 without writing, pass 2 writes from 0 into a buffer of at least max(counted, 4096) bytes')
         if r == 'sat': cands.append(dict(role='jit-new/buffer-smaller-than-counted', detail='the buffer handed to the emitting pass can be smaller than the counted size', model=None, friendly=True))
     if not two: pr.out['errors'].append('JitMemory::new: no path runs both passes')
@@ -214,7 +229,7 @@ def worker(args):
                 n = J.prog_len / 8
                 off0 = J.jm_offset()
                 inv = [alen, simplify(A), ULT(P.pc, n), J.nslots == n + 1, ULE(off0, 1 << 32), ULE(J.prog_len, 8000000),
-                       Or(Not(J.jm_we()), UGE(J.jm_len(), off0 + 64)), ULE(J.jm_len(), 1 << 40), ULE(BitVec('jm.0.ptr', 64), 1 << 62), ULE(BitVec('pc_locs.ptr', 64), 1 << 62)]
+                       Or(Not(J.jm_we()), UGE(J.jm_len(), off0 + 64)), ULE(J.jm_len(), 1 << 40), ULE(BitVec('jm.contents.ptr', 64), 1 << 62), ULE(BitVec('pc_locs.ptr', 64), 1 << 62)]
                 st.pc += inv
                 paths = J.eng.explore(st, cuts={(J.f.name, J.head)})
                 by_we = {True: [], False: []}
@@ -228,7 +243,7 @@ def worker(args):
                         if r == 'sat': cands.append(dict(role=f'jit-compile/{name}/panic:{(p.payload[0] if p.kind == "panic" else p.kind)[:40]}', detail=f'{p.kind} {p.payload}', model=dict(opc=opc, pc=obl.mval(m, P.pc), off=obl.mval(m, P.off), imm=obl.mval(m, P.imm), regbyte=obl.mval(m, P.regbyte), we=str(m.eval(J.jm_we()))), friendly=True))
                         continue
                     fl = p.st.frames[0].locals
-                    jm = fl['$jm']; off1 = jm.fields[3].t
+                    jm = fl['$jm']; off1 = jm.fields[J.off_field].t
                     d = simplify(off1 - off0)
                     if is_bv_value(d):
                         pr.out['syntactic'] = pr.out.get('syntactic', 0) + 1
@@ -261,7 +276,7 @@ def worker(args):
                     for (pf, of_) in by_we[False]:
                         if is_bv_value(ot) and is_bv_value(of_) and ot.as_long() == of_.as_long():
                             pr.out['syntactic'] = pr.out.get('syntactic', 0) + 1; continue
-                        both = [c for c in list(pt.st.pc) + list(pf.st.pc) if not mentions(c, 'jm.1') and not mentions(c, 'jm.0.len')]
+                        both = [c for c in list(pt.st.pc) + list(pf.st.pc) if not mentions(c, 'jm.write_enabled') and not mentions(c, 'jm.contents.len')]
                         r0, _ = pr.check(both, [])
                         if r0 == 'unsat': continue
                         r, m = pr.prove(f'{name}:two-pass-agreement', both, ot == of_, sample=f'{name}: sizing pass and emitting pass advance the code offset by the same amount')
